@@ -690,6 +690,13 @@ func restoreGroupState(group *metadatapb.ConsumerGroup) *groupState {
 		assignments:      make(map[string][]assignmentTopic),
 		rebalanceTimeout: rebalanceTimeout,
 	}
+	// The record does not say which members have already re-joined a rebalance that is still
+	// being prepared. Assume nobody has: members poll JoinGroup until it succeeds, so they join
+	// again, and the rebalance cannot complete without a member the record merely lists.
+	joinedGeneration := group.GenerationId
+	if state.state == groupStatePreparingRebalance {
+		joinedGeneration = 0
+	}
 	for memberID, member := range group.Members {
 		sessionTimeout := defaultSessionTimeout
 		if member.SessionTimeoutMs > 0 {
@@ -698,7 +705,7 @@ func restoreGroupState(group *metadatapb.ConsumerGroup) *groupState {
 		entry := &memberState{
 			topics:         append([]string(nil), member.Subscriptions...),
 			sessionTimeout: sessionTimeout,
-			joinGeneration: group.GenerationId,
+			joinGeneration: joinedGeneration,
 		}
 		if member.HeartbeatAt != "" {
 			if parsed, err := time.Parse(time.RFC3339Nano, member.HeartbeatAt); err == nil {
